@@ -71,7 +71,7 @@ pub fn format_all(directory: &Option<PathBuf>, args: &CliArguments) -> Result<Fo
     // Walk through all the files in the directory
     let entries = WalkDir::new(directory)
         .into_iter()
-        .filter_entry(|e| !is_hidden(e))
+        .filter_entry(|e| e.depth() == 0 || !is_hidden(e))
         .filter_map(Result::ok);
     for entry in entries {
         if !(entry.file_type().is_file() && entry.path().extension() == Some("typ".as_ref())) {
